@@ -4,6 +4,7 @@ import AlgoVerif.Proofs.C10Sets
 import AlgoVerif.Proofs.C10Derives
 /-! `NullableNonTerminals`: the result is the least set closed under the nullable rule, for every
 iteration order; the set of non-terminals deriving ε is that least set too. -/
+set_option linter.unusedSectionVars false
 namespace AlgoVerif.C10
 open AlgoVerif AlgoVerif.Gram
 variable {T N : Type} [DecidableEq T] [DecidableEq N]
